@@ -1,5 +1,17 @@
 claim("C04", "SSA graph-cut must-pass-through + who-may-write + store-shape + upper-bound provenance over the flow-control counters",
       "Every path/site structural check of the flow-control mechanism: send length bounded by SendWindowSize() by construction, counters written only by their owners with the expected shapes, violation check post-dominates every highestReceived raise, unread bytes handed back exactly once per abandon path, BLOCKED frames only under IsNewlyBlocked. Decides necessary conditions, not credit conservation over histories.",
       "DESIGN.md §3 C04")
-for pid in ["C01","C02","C03","C05","C06","C07","C08","C09","C10","C11","C12","C13","C14","C15","C16","C17","C18","C19","C20"]:
+claim("C06", "SSA graph-cut + who-may-write/call + effect pairing over loss-recovery accounting and callbacks",
+      "Every-path/every-site structural checks of loss recovery: bytesInFlight/numOutstanding written only by their owners with flag pairing, OnAcked/OnLost fired only from the two resolution paths with frames cleared and history removal paired, ACKs for unsent/skipped numbers rejected before any effect, timer re-armed after every state-changing event. Necessary conditions, not the sum invariant over histories.",
+      "DESIGN.md §3 C06")
+claim("C07", "SSA graph-cut + provenance of ACK ranges + dispatch-table agreement + trigger table over the received-packet trackers",
+      "Every-path structural checks: ACK ranges only from history intervals iterated downwards, forget-below thresholds monotone and honoured, duplicate test dominates frame handling for both header forms, per-level dispatch agrees, ack-eliciting 1-RTT packet leaves with ACK queued or alarm=rcvTime+maxAckDelay, the four immediate-ACK triggers. Interval algebra is not decided.",
+      "DESIGN.md §3 C07")
+claim("C14", "SSA graph-cut + who-may-write + value-origin slice over amplification limit, address validation and token decoding",
+      "Every-path structural checks: limit predicate shape and constant 3, every sending mode beyond the not-limited edge, byte counters written once per packet by their owners, validated flag only from validateToken()/Handshake packet, token decode has no fallback path. The running 3x inequality over histories is not decided.",
+      "DESIGN.md §3 C14")
+claim("C20", "SSA graph-cut + who-may-write + store-shape over congestion window and pacer guards",
+      "Every-path structural checks: ack-path stores only increase or min(max,·) under isCwndLimited and below max, one reduction per epoch with clamp to 2 packets, CanSend shape and gating of SendAny, pacer overflow guards dominate the multiplication, 5/4 factor. Numeric bounds over histories are not decided.",
+      "DESIGN.md §3 C20")
+for pid in ["C01","C02","C03","C05","C08","C09","C10","C11","C12","C13","C15","C16","C17","C18","C19"]:
     na(pid, "rules for this property are designed (DESIGN.md §3) but not yet implemented in the checker; not claimed until they are")
